@@ -79,13 +79,17 @@ func (h *HeaderHashes) init(dao *dao.Simple, trusted config.HashIndex) error {
 	h.dao = dao
 	h.cache, _ = lru.New[uint32, []util.Uint256](pagesCache) // Never errors for positive size.
 	h.storedHeaderCount = ((currHeaderHeight + 1) / headerBatchCount) * headerBatchCount
-	missingHeaderCount := ((trusted.Index + 1) / headerBatchCount) * headerBatchCount
-	if h.storedHeaderCount >= headerBatchCount &&
-		((h.storedHeaderCount > missingHeaderCount && h.storedHeaderCount-missingHeaderCount >= headerBatchCount) ||
-			currHeaderHeight%headerBatchCount != trusted.Index%headerBatchCount) {
+	// A node that starts from a trusted header stores pages of header hashes
+	// beginning with the one its predecessor belongs to (see initMinTrustedHeader),
+	// older pages may be missing and are of no use anyway.
+	var firstPage uint32
+	if trusted.Index > 0 {
+		firstPage = ((trusted.Index - 1) / headerBatchCount) * headerBatchCount
+	}
+	if h.storedHeaderCount >= headerBatchCount && h.storedHeaderCount-headerBatchCount >= firstPage {
 		h.previous, err = h.dao.GetHeaderHashes(h.storedHeaderCount - headerBatchCount)
 		if err != nil {
-			return fmt.Errorf("failed to retrieve header hash page %d: %w; stored: %d, missing: %d, trusted: %d, curr: %d", h.storedHeaderCount-headerBatchCount, err, h.storedHeaderCount, missingHeaderCount, trusted.Index, currHeaderHeight)
+			return fmt.Errorf("failed to retrieve header hash page %d: %w; stored: %d, first: %d, trusted: %d, curr: %d", h.storedHeaderCount-headerBatchCount, err, h.storedHeaderCount, firstPage, trusted.Index, currHeaderHeight)
 		}
 	} else {
 		h.previous = make([]util.Uint256, headerBatchCount)
@@ -124,7 +128,8 @@ func (h *HeaderHashes) init(dao *dao.Simple, trusted config.HashIndex) error {
 		}
 		slices.Reverse(headers)
 		if padLeft {
-			h.latest = h.latest[:currHeaderHeight-uint32(len(headers))]
+			// Positions in latest are relative to storedHeaderCount.
+			h.latest = h.latest[:currHeaderHeight-h.storedHeaderCount-uint32(len(headers))]
 			h.latest = append(h.latest, trusted.Hash)
 		}
 		h.latest = append(h.latest, headers...)
